@@ -7,16 +7,19 @@
    PLMN) is C13 / C11 / C18; on every run the real process is accepted by the independent reference AMF and its NAS
    PDUs are compared octet by octet with this model. *)
 From Coq Require Import NArith ZArith List Bool.
-Require Import Bytes AES Hex Dec CreateUE SuciEnc RanUe NasSec RefNasPeer TS33501 TS35206 Register RefAMF RegisterProofs RegisterInst.
+Require Import Bytes AES SHA256 Hex Dec CreateUE SuciEnc RanUe NasSec RefNasPeer TS33501 TS35206 Register RefAMF RegisterProofs RegisterInst.
+Require Import Security RegisterGo.
 Import ListNotations.
 Open Scope N_scope.
 
 Theorem c01_registration_is_accepted :
   forall (E H : bytes -> bytes -> bytes) (enc mac : N -> list N -> N -> N -> N -> list N -> option (list N)),
     (forall k x, length (E k x) = 16%nat) -> (forall k x, length (H k x) = 32%nat) ->
-    (forall a k c d m t, mac a k c 1 d m = Some t -> length t = 4%nat) ->
-    (forall a k c d p q, enc a k c 1 d p = Some q -> enc a k c 1 d q = Some p) ->
-    (forall kenc kint c hdr p, protect enc mac (mk_ctx 0 2 kenc kint) UPLINK c hdr p <> None) ->
+    (* of the NAS algorithms only what concerns the pair CreateUE selects (5G-EA0, 128-5G-IA2) with 16-octet keys *)
+    (forall k c d m t, mac 2 k c 1 d m = Some t -> length t = 4%nat) ->
+    (forall k c d p q, enc 0 k c 1 d p = Some q -> enc 0 k c 1 d q = Some p) ->
+    (forall kenc kint c hdr p, length kenc = 16%nat -> length kint = 16%nat ->
+       protect enc mac (mk_ctx 0 2 kenc kint) UPLINK c hdr p <> None) ->
   forall mcc mnc msin ks opcs ops k opc idx rand sqn amff,
     (* valid configuration: IMSI = MCC (3 digits) MNC (2|3 digits) MSIN, at most 15 digits; K and OPc 16 octets of hex *)
     digits_ok mcc = true -> digits_ok mnc = true -> digits_ok msin = true ->
@@ -37,6 +40,31 @@ Theorem c01_registration_is_accepted :
       /\ ul (o_final o) = 2.
 Proof. exact registration_accepted. Qed.
 Print Assumptions c01_registration_is_accepted.
+
+(* the same for the algorithms the emulator really runs, no hypothesis left on them: AES-128 as the Milenage kernel
+   (aes128_16 = aes128 on 16-octet keys, the only ones Go's aes.NewCipher accepts; K is 16 octets here), HMAC-SHA-256 as
+   the KDF, and the models of the Go functions NASEncrypt / NASMacCalculate (= 128-NEA / 128-NIA by C07) on both sides *)
+Theorem c01_registration_is_accepted_go :
+  forall mcc mnc msin ks opcs ops k opc idx rand sqn amff,
+    digits_ok mcc = true -> digits_ok mnc = true -> digits_ok msin = true ->
+    length mcc = 3%nat -> (length mnc = 2%nat \/ length mnc = 3%nat) -> (1 <= length msin)%nat ->
+    (length (mcc ++ mnc ++ msin) <= 15)%nat ->
+    undec msin + idx < 10 ^ N.of_nat (length msin) ->
+    hex_decode ks = Some k -> opcs <> [] -> hex_decode opcs = Some opc -> length k = 16%nat -> length opc = 16%nat ->
+    length rand = 16%nat -> length sqn = 6%nat ->
+    let g := {| g_imsi := to_ascii (mcc ++ mnc ++ msin); g_mcc := to_ascii mcc; g_mnc := to_ascii mnc; g_k := ks; g_opc := opcs; g_op := ops |} in
+    let s := {| sub_mcc := mcc; sub_mnc := mnc; sub_msin := pad0 (length msin) (undec msin + idx); sub_k := k; sub_opc := opc |} in
+    let ch := {| ch_rand := rand; ch_sqn := sqn; ch_amf := amff |} in
+    exists o, register_ue aes128_16 hmac_sha256 nas_encrypt nas_mac g idx rand (amf_autn aes128_16 s ch) = RegOk o
+      /\ amf_registration aes128_16 hmac_sha256 nas_encrypt nas_mac s ch (o_regreq o) (o_authresp o) (o_smc_complete o) (o_reg_complete o) = Registered 2
+      /\ o_supi o = ascii_imsi_dash ++ sub_imsi_ascii s
+      /\ ul (o_final o) = 2.
+Proof. exact registration_accepted_go. Qed.
+Print Assumptions c01_registration_is_accepted_go.
+
+Theorem c01_aes128_16_is_aes128 : forall k x, length k = 16%nat -> aes128_16 k x = aes128 k x.
+Proof. exact aes128_16_is_aes128. Qed.
+Print Assumptions c01_aes128_16_is_aes128.
 
 (* non-vacuity with the real algorithms: the shipped configuration (IMSI 001010000000001, K/OPc of src/config.yaml), UE index 1,
    RAND/SQN/AMF of TS 35.208 test set 1 *)
